@@ -40,6 +40,8 @@ where
         let mut queue = self.queue.lock().unwrap();
         queue.push_back(Control::Elem(value));
         self.condvar.notify_one();
+        #[cfg(tiny_http_verif)]
+        tiny_http_vrt::mark!("q.push", len = queue.len());
     }
 
     /// Unblock one thread stuck in pop loop.
@@ -47,6 +49,8 @@ where
         let mut queue = self.queue.lock().unwrap();
         queue.push_back(Control::Unblock);
         self.condvar.notify_one();
+        #[cfg(tiny_http_verif)]
+        tiny_http_vrt::mark!("q.unblock", len = queue.len());
     }
 
     /// Pops an element. Blocks until one is available.
@@ -55,6 +59,8 @@ where
         let mut queue = self.queue.lock().unwrap();
 
         loop {
+            #[cfg(tiny_http_verif)]
+            tiny_http_vrt::mark!("q.pop", kind = 0, len = queue.len());
             match queue.pop_front() {
                 Some(Control::Elem(value)) => return Some(value),
                 Some(Control::Unblock) => return None,
@@ -68,6 +74,8 @@ where
     /// Tries to pop an element without blocking.
     pub fn try_pop(&self) -> Option<T> {
         let mut queue = self.queue.lock().unwrap();
+        #[cfg(tiny_http_verif)]
+        tiny_http_vrt::mark!("q.pop", kind = 1, len = queue.len());
         match queue.pop_front() {
             Some(Control::Elem(value)) => Some(value),
             Some(Control::Unblock) | None => None,
@@ -81,6 +89,8 @@ where
         let mut queue = self.queue.lock().unwrap();
         let mut duration = timeout;
         loop {
+            #[cfg(tiny_http_verif)]
+            tiny_http_vrt::mark!("q.pop", kind = 2, len = queue.len());
             match queue.pop_front() {
                 Some(Control::Elem(value)) => return Some(value),
                 Some(Control::Unblock) => return None,
@@ -98,6 +108,8 @@ where
             if result.timed_out()
                 || (duration.as_secs() == 0 && duration.subsec_nanos() < 1_000_000)
             {
+                #[cfg(tiny_http_verif)]
+                tiny_http_vrt::mark!("q.giveup", timedout = result.timed_out(), len = queue.len());
                 // the wake-up that ended this wait may have been the notification for an element
                 // pushed in the meantime: look once more instead of leaving it behind for nobody
                 return match queue.pop_front() {
